@@ -29,7 +29,12 @@ pub fn run(ctx: &mut Ctx, prop: &str) {
         "C08" => all(ctx, prop, c08_case),
         "C09" => c09(ctx),
         "C10" => all(ctx, prop, c10_case),
-        "C11" => all(ctx, prop, c11_case),
+        "C11" => {
+            all(ctx, prop, c11_case);
+            if std::env::var("PCV_C11_PROBE").is_ok() {
+                probe_displaced_tiny();
+            }
+        }
         "C19" => all(ctx, prop, c19_case),
         _ => {}
     }
@@ -461,7 +466,7 @@ fn c09(ctx: &mut Ctx) {
             let mut rng = rng_for(ctx.seed, "C09/lincode-setup", (i * 3 + scheme) as u64);
             let rp = |what: &str| format!("# scheme: {}\n# case: {}\n# seed: {}\n# setup(max_degree = {})\n# {}\n# rerun: .build/cargo/debug/pcv-harness C09 --seed {} --only {}\n", name, id, ctx.seed, d, what, ctx.seed, id);
             let req = Req::new("lincode.setup")
-                .arg("scheme", wire::nat(if scheme == 2 { 1 } else { 0 }))
+                .arg("scheme", wire::nat(scheme))
                 .arg("s", wire::nat(Fr::TWO_ADICITY as usize))
                 .arg("degree", wire::nat(*d));
             // (sec, distance, wf, max_degree report, ck == pp == vk) of the real setup + trim
@@ -523,6 +528,47 @@ fn c09(ctx: &mut Ctx) {
         }
     }
     ctx.flush_model("C09-lincode");
+}
+
+
+/// `PCV_C11_PROBE=1`: search for a displaced proof of a NON-constant polynomial that is accepted
+/// (univariate Ligero, inverse rate 2, well-formedness check off, two coefficients: a `2 × 1` matrix,
+/// codeword length 2, both columns opened) and print the input.
+fn probe_displaced_tiny() {
+    use ark_crypto_primitives::sponge::CryptographicSponge;
+    let pp = Uni::params(&mut rng_for(0, "probe", 0), 0, false, 128, 2);
+    let coeffs = vec![Fr::from(3u64), Fr::from(5u64)];
+    let point = vec![Fr::from(7u64)];
+    let mut hits = 0;
+    for a in 0..40u64 {
+        let mut pre = LogSponge::fresh();
+        pre.absorb(&Fr::from(a));
+        pre.log.clear();
+        let run = match honest::<Uni>(&pp, &[coeffs.clone()], &point, &pre) {
+            Ok(r) => r,
+            Err(e) => {
+                eprintln!("probe: honest run refused: {}", e);
+                return;
+            }
+        };
+        for b in 100..140u64 {
+            let mut other = LogSponge::fresh();
+            other.absorb(&Fr::from(b));
+            other.log.clear();
+            let (out, log) = check::<Uni>(&run.pp, &run.comms, &run.point, &run.values, &run.proof, &other);
+            if out.accepted() {
+                hits += 1;
+                if hits <= 3 {
+                    eprintln!(
+                        "probe: p(X) = 3 + 5X, z = 7, LigeroPCParams::new(128, 2, false): proof made on a fresh Poseidon sponge after absorb(Fr::from({})) \
+is ACCEPTED by check on a fresh sponge after absorb(Fr::from({})); shape {:?}, prover positions {:?}, verifier squeezed bytes {:?}",
+                        a, b, (run.comms[0].metadata.n_rows, run.comms[0].metadata.n_cols, run.comms[0].metadata.n_ext_cols),
+                        run.proof[0].opening.paths.iter().map(|q| q.leaf_index).collect::<Vec<_>>(), log.squeezed_bytes());
+                }
+            }
+        }
+    }
+    eprintln!("probe: {} of 1600 (prover pre-state, verifier pre-state) pairs accepted", hits);
 }
 
 // ------------------------------------------------------------------------------------------------
